@@ -6,6 +6,8 @@ pub mod error;
 pub mod js_bindings;
 pub mod output;
 mod step;
+#[cfg(feature = "verif-hooks")]
+pub mod verif;
 
 use output::StyleSheetOutput;
 use step::{StepParser, StepToken};
